@@ -17,6 +17,7 @@ PID = 'C04'
 
 META = {
     'level': 'exploration',
+    'fork_batches': True,       # each batch runs in a forked child of the pool worker (bounded memory)
     'runs': {'quick': 30000, 'thorough': 1500000},
     'batch': {'quick': 200, 'thorough': 2000},
     'wall_cap': {'quick': 900, 'thorough': 3300},
